@@ -1,9 +1,10 @@
 (** Extraction of the C06 model (ExtrOcamlBasic only; N/Z/positive/nat stay inductive). *)
 Require Extraction.
 Require Import ExtrOcamlBasic.
-From Kardia Require Import C06.Model C06.ModelValset.
+From Kardia Require Import C06.Model C06.ModelValset C06.ModelSnap.
 Extraction Language OCaml.
 Set Extraction KeepSingleton.
 From Kardia Require Import Base.Anchor.
 Extraction "../ocaml/C06/model.ml" Anchor.anchor Model.flush_both Model.exec_summary Model.validate_block
-  Model.fm_get ModelValset.apply_reported ModelValset.calculate_updates ModelValset.update.
+  Model.fm_get ModelValset.apply_reported ModelValset.calculate_updates ModelValset.update
+  ModelSnap.apply_block_snap ModelSnap.apply_block_trie ModelSnap.bk_layers ModelSnap.bk_content ModelSnap.genesis_node.
